@@ -207,12 +207,15 @@ func (fx *FX) runTop() (errmsg string) {
 		}
 		if len(exits) > 0 {
 			// vacuity guard: some return is reachable under the preconditions
-			var rs []Term
+			// the earliest return in source order (usually the simplest path) must be reachable
+			first := exits[0]
 			for _, x := range exits {
-				rs = append(rs, x.st.reach)
+				if x.pos < first.pos {
+					first = x
+				}
 			}
 			ob := &Obligation{Name: fx.name + ".cover(return)", Kind: "cover", Func: fx.name, Clause: "a return is reachable", Expect: "sat", Props: c.Props}
-			fx.items = append(fx.items, item{kind: "oblig", ob: ob, reach: Or(rs...), goal: False})
+			fx.items = append(fx.items, item{kind: "oblig", ob: ob, reach: first.st.reach, goal: False})
 			fx.obs = append(fx.obs, ob)
 		}
 	}
@@ -316,9 +319,18 @@ func (fx *FX) frameObligations(entry *State, x exitPoint) {
 		return
 	}
 	allowed := map[string]bool{"$alloc": true}
+	star := false
+	excluded := map[string]bool{}
 	for _, m := range c.Modifies {
 		if m == "*" {
-			return
+			star = true
+			continue
+		}
+		if strings.HasPrefix(m, "-") {
+			for _, k := range fx.expandCompName(m[1:]) {
+				excluded[k] = true
+			}
+			continue
 		}
 		for _, k := range fx.expandCompName(m) {
 			allowed[k] = true
@@ -326,6 +338,9 @@ func (fx *FX) frameObligations(entry *State, x exitPoint) {
 	}
 	var keys []string
 	for k := range fx.knownComps {
+		if star && !excluded[k] {
+			continue
+		}
 		keys = append(keys, k)
 	}
 	sort.Strings(keys)
